@@ -10,7 +10,8 @@ chain, referral with or without glue, NXDOMAIN / NODATA with the SOA).  The shap
       means the resolver has to resolve m.x. through the x. zone first)
   x. is served by `n.x.` (10.9.9.3, glue always present); it holds n.x., m.x. (= the y. server's address) and e.x.
   the y. zone holds, for the question name c.y.: an A record | a CNAME to d.y. (in zone, A there) | a CNAME to e.x.
-      (crossing into x.) | nothing (NXDOMAIN) | only a TXT record (NODATA)
+      (crossing into x.) | nothing (NXDOMAIN) | only a TXT record (NODATA) | a CNAME to f.x. which x. does not have |
+      a CNAME to g.x. which has no A record
   before the question: nothing | the same question | a question for the alias target (so that part of the answer is cached)
 
 Obligation: the answer is exactly the CNAME chain followed by the final record set the servers hold, or an empty
@@ -21,8 +22,8 @@ import models_misc
 from check import native_test, save_replay
 
 ADDR = {'R': (10, 9, 9, 1), 'Y': (10, 9, 9, 2), 'X': (10, 9, 9, 3)}
-NAMES = ['.', 'h.', 'y.', 'x.', 'c.y.', 'd.y.', 'n.y.', 'n.x.', 'm.x.', 'e.x.']
-DATA = ['A', 'CNAME-in-zone', 'CNAME-cross-zone', 'NXDOMAIN', 'NODATA']
+NAMES = ['.', 'h.', 'y.', 'x.', 'c.y.', 'd.y.', 'n.y.', 'n.x.', 'm.x.', 'e.x.', 'f.x.', 'g.x.']
+DATA = ['A', 'CNAME-in-zone', 'CNAME-cross-zone', 'NXDOMAIN', 'NODATA', 'CNAME-to-missing-cross-zone', 'CNAME-to-nodata-cross-zone']
 PRIOR = ['none', 'same-question', 'alias-target']
 
 
@@ -41,7 +42,9 @@ class Tree(Harness):
         elif data == 'CNAME-in-zone': y += [('c.y.', 'CNAME', 'd.y.'), ('d.y.', 'A', (10, 0, 0, 78))]
         elif data == 'CNAME-cross-zone': y.append(('c.y.', 'CNAME', 'e.x.'))
         elif data == 'NODATA': y.append(('c.y.', 'TXT', None))
-        x = [('n.x.', 'A', ADDR['X']), ('m.x.', 'A', ADDR['Y']), ('e.x.', 'A', (10, 0, 0, 79))]
+        elif data == 'CNAME-to-missing-cross-zone': y.append(('c.y.', 'CNAME', 'f.x.'))
+        elif data == 'CNAME-to-nodata-cross-zone': y.append(('c.y.', 'CNAME', 'g.x.'))
+        x = [('n.x.', 'A', ADDR['X']), ('m.x.', 'A', ADDR['Y']), ('e.x.', 'A', (10, 0, 0, 79)), ('g.x.', 'TXT', None)]
         return {'y.': y, 'x.': x}
 
     def run(self, ex):
@@ -126,14 +129,15 @@ class Tree(Harness):
             ex.require(r.variant == 0, 'pending', 'resolution did not complete although every leaf future was ready')
             return r.fields[0].v.fields[1].v, list(calls)
         if prior == 'same-question': ask('c.y.')
-        elif prior == 'alias-target': ask('d.y.' if data == 'CNAME-in-zone' else 'e.x.')
+        elif prior == 'alias-target': ask({'CNAME-in-zone': 'd.y.', 'CNAME-cross-zone': 'e.x.', 'CNAME-to-missing-cross-zone': 'f.x.', 'CNAME-to-nodata-cross-zone': 'g.x.'}[data])
         res, trace = ask('c.y.')
         ex.overrides.clear()
         # ---- expected answer
         want = {'A': [('c.y.', 'A', (10, 0, 0, 77))],
                 'CNAME-in-zone': [('c.y.', 'CNAME', 'd.y.'), ('d.y.', 'A', (10, 0, 0, 78))],
                 'CNAME-cross-zone': [('c.y.', 'CNAME', 'e.x.'), ('e.x.', 'A', (10, 0, 0, 79))],
-                'NXDOMAIN': [], 'NODATA': []}[data]
+                'NXDOMAIN': [], 'NODATA': [], 'CNAME-to-missing-cross-zone': [('c.y.', 'CNAME', 'f.x.')], 'CNAME-to-nodata-cross-zone': [('c.y.', 'CNAME', 'g.x.')]}[data]
+        negzone = {'NXDOMAIN': 'y.', 'NODATA': 'y.', 'CNAME-to-missing-cross-zone': 'x.', 'CNAME-to-nodata-cross-zone': 'x.'}.get(data)
         smp = {'y_nameserver': nsy, 'glue': glue, 'c.y.': data, 'asked_before': prior, 'upstream_queries': [f'{s}: {n} {t}' for s, n, t in trace]}
         ex.require(res.variant == 0, 'no-answer', f'resolution failed ({vname(w, res.fields[0].v) if res.variant == 1 else ""}) in a consistent tree whose servers all answer')
         rv = res.fields[0].v
@@ -143,8 +147,8 @@ class Tree(Harness):
         for g, (o, t, v) in zip(got, want):
             ex.require(seq(ex, fld(w, g, 'name'), nm(w, o)) is True and seq(ex, fld(w, g, 'rtype_with_data'), rdata(t, v)) is True, 'answer', f'a returned record is not the {t} record the authoritative server holds at {o} (chain order matters)')
         s_ = fld(w, rv, 'soa_rr')
-        if not want:
-            ex.require(s_.variant == 1 and seq(ex, fld(w, s_.fields[0].v, 'name'), nm(w, 'y.')) is True and vname(w, fld(w, s_.fields[0].v, 'rtype_with_data')) == 'SOA', 'negative', 'a name or type that does not exist is not answered with an empty answer carrying the zone SOA')
+        if negzone:
+            ex.require(s_.variant == 1 and seq(ex, fld(w, s_.fields[0].v, 'name'), nm(w, negzone)) is True and vname(w, fld(w, s_.fields[0].v, 'rtype_with_data')) == 'SOA', 'negative', 'a name or type that does not exist (directly or at the end of the alias chain) is not answered with the SOA of its zone')
         # ---- referrals strictly closer / no server asked the same thing twice
         seen = set()
         for s, n, t in trace:
@@ -242,13 +246,15 @@ fn soa(z: &str) -> ResourceRecord { rr(z, RecordTypeWithData::SOA { mname: name(
 const R: [u8; 4] = [127, 0, 0, 1]; const Y: [u8; 4] = [127, 0, 0, 2]; const X: [u8; 4] = [127, 0, 0, 3];
 
 fn zone_data(c: &Case, zone: &str) -> Vec<ResourceRecord> {
-    if zone == "x." { return vec![rr("n.x.", a(X)), rr("m.x.", a(Y)), rr("e.x.", a([10, 0, 0, 79]))]; }
+    if zone == "x." { return vec![rr("n.x.", a(X)), rr("m.x.", a(Y)), rr("e.x.", a([10, 0, 0, 79])), rr("g.x.", RecordTypeWithData::TXT { octets: bytes::Bytes::from_static(b"t") })]; }
     let mut y = Vec::new();
     if c.nsy == "n.y." { y.push(rr("n.y.", a(Y))); }
     match c.data {
         0 => y.push(rr("c.y.", a([10, 0, 0, 77]))),
         1 => { y.push(rr("c.y.", RecordTypeWithData::CNAME { cname: name("d.y.") })); y.push(rr("d.y.", a([10, 0, 0, 78]))); }
         2 => y.push(rr("c.y.", RecordTypeWithData::CNAME { cname: name("e.x.") })),
+        5 => y.push(rr("c.y.", RecordTypeWithData::CNAME { cname: name("f.x.") })),
+        6 => y.push(rr("c.y.", RecordTypeWithData::CNAME { cname: name("g.x.") })),
         4 => y.push(rr("c.y.", RecordTypeWithData::TXT { octets: bytes::Bytes::from_static(b"t") })),
         _ => (),
     }
@@ -353,7 +359,7 @@ fn run_case(c: &Case) -> Option<(Res, Vec<String>)> {
         let (_m, r) = rt.block_on(resolve(true, ProtocolMode::PreferV4, port, None, &zones, &cache, &question));
         r.map_err(|e| format!("{e:?}"))
     };
-    match c.prior { 1 => { let _ = ask("c.y."); } 2 if c.data == 1 => { let _ = ask("d.y."); } 2 if c.data == 2 => { let _ = ask("e.x."); } _ => (), }
+    match c.prior { 1 => { let _ = ask("c.y."); } 2 if c.data == 1 => { let _ = ask("d.y."); } 2 if c.data == 2 => { let _ = ask("e.x."); } 2 if c.data == 5 => { let _ = ask("f.x."); } 2 if c.data == 6 => { let _ = ask("g.x."); } _ => (), }
     let res = ask("c.y.");
     let log = state.lock().unwrap().log.clone();
     Some((res, log))
@@ -364,13 +370,16 @@ fn check_result(c: &Case, res: &Res) -> Result<(), String> {
         0 => vec![rr("c.y.", a([10, 0, 0, 77]))],
         1 => vec![rr("c.y.", RecordTypeWithData::CNAME { cname: name("d.y.") }), rr("d.y.", a([10, 0, 0, 78]))],
         2 => vec![rr("c.y.", RecordTypeWithData::CNAME { cname: name("e.x.") }), rr("e.x.", a([10, 0, 0, 79]))],
+        5 => vec![rr("c.y.", RecordTypeWithData::CNAME { cname: name("f.x.") })],
+        6 => vec![rr("c.y.", RecordTypeWithData::CNAME { cname: name("g.x.") })],
         _ => vec![],
     };
+    let negzone = match c.data { 3 | 4 => Some("y."), 5 | 6 => Some("x."), _ => None };
     match res {
         Ok(ResolvedRecord::NonAuthoritative { rrs, soa_rr }) => {
             let same = rrs.len() == want.len() && rrs.iter().zip(want.iter()).all(|(g, w)| g.name == w.name && g.rtype_with_data == w.rtype_with_data && g.rclass == w.rclass && g.ttl <= w.ttl);   // cached records have aged in real time
             if !same { return Err(format!("answer {rrs:?} is not what the authoritative servers hold: {want:?}")); }
-            if want.is_empty() && !matches!(soa_rr, Some(s) if s.name == name("y.") && matches!(s.rtype_with_data, RecordTypeWithData::SOA { .. })) { return Err("a name or type that does not exist is not answered with the zone SOA".to_string()); }
+            if let Some(z) = negzone { if !matches!(soa_rr, Some(s) if s.name == name(z) && matches!(s.rtype_with_data, RecordTypeWithData::SOA { .. })) { return Err("a name or type that does not exist is not answered with the SOA of its zone".to_string()); } }
             Ok(())
         }
         other => Err(format!("the result is {other:?}")),
@@ -384,5 +393,5 @@ def harnesses(world, tier, seed):
                bounds={'tree': 'root -> y. (served in-zone with glue | out-of-zone with or without glue) and x.; 3 servers', 'question': 'c.y. A', 'c.y.': ' | '.join(DATA), 'asked before': ' | '.join(PRIOR), 'protocol mode': 'prefer-v4 (address families are C18)'},
                assumptions=('tokio timers never fire before the wrapped future is ready', 'query_nameserver is replaced by the consistent universe described in the module text; every server answers at once',
                             'one family of trees (depth 2, one nameserver per zone); wider or deeper hierarchies, several nameservers per zone and servers that fail are outside this check (C08 states what failing servers may do)'),
-               expected_classes=('A:resolved', 'A:cached', 'CNAME-in-zone:resolved', 'CNAME-cross-zone:resolved', 'NXDOMAIN:resolved', 'NODATA:resolved'))]
+               expected_classes=('A:resolved', 'A:cached', 'CNAME-in-zone:resolved', 'CNAME-cross-zone:resolved', 'NXDOMAIN:resolved', 'NODATA:resolved', 'CNAME-to-missing-cross-zone:resolved', 'CNAME-to-nodata-cross-zone:resolved'))]
     return hs, (1500 if tier == 'quick' else 5400), None
